@@ -118,12 +118,20 @@ inductive CbRes where
   | ok | fail | cancelled
   deriving DecidableEq, Repr
 
+/-- how a later stage of the tail ended. Every stage that runs a command or talks to a cache takes the task context: cancelled, it
+    returns an error that wraps `context.Canceled` (`runOutputChecks`: `fmt.Errorf("output check failed …: %w", err)`;
+    `OnTargetComplete`: `"… failed to write outputs to cache …:\n%w"`), which the walker — the context *is* cancelled then —
+    treats as a cancellation, not as a failure -/
+inductive StageRes where
+  | ok | fail | cancelled
+  deriving DecidableEq, Repr
+
 structure TailIn where
-  cmd            : CmdOutcome
-  recheckOk      : Bool   -- output checks pass after the command
-  binOk          : Bool   -- chmod of the bin output succeeded
-  writeOutputsOk : Bool   -- every declared output exists and was written to the CAS
-  resultWriteOk  : Bool   -- the target result record was stored
+  cmd          : CmdOutcome
+  recheck      : StageRes   -- output checks after the command: pass / a check fails / interrupted
+  binOk        : Bool       -- chmod of the bin output succeeded
+  writeOutputs : StageRes   -- every declared output exists and was written to the CAS / one is missing or a write failed / interrupted
+  resultWrite  : StageRes   -- the target result record was stored / the store failed / interrupted
   deriving DecidableEq, Repr
 
 structure TailOut where
@@ -135,6 +143,13 @@ structure TailOut where
     succeeds only if every one of them succeeds — in particular if every declared output was created -/
 def writeOutputsOk (writers : List Bool) : Bool := writers.all id
 
+def writeOutputsRes (writers : List Bool) : StageRes := if writeOutputsOk writers then .ok else .fail
+
+def StageRes.toCb : StageRes → CbRes
+  | .ok => .ok
+  | .fail => .fail
+  | .cancelled => .cancelled
+
 def execTail (i : TailIn) : TailOut :=
   match i.cmd with
   | .exitNonZero => ⟨.fail, false⟩
@@ -142,10 +157,10 @@ def execTail (i : TailIn) : TailOut :=
   | .startError => ⟨.fail, false⟩
   | .cancelled => ⟨.cancelled, false⟩
   | .ok =>
-    if !i.recheckOk then ⟨.fail, false⟩
+    if i.recheck ≠ .ok then ⟨i.recheck.toCb, false⟩
     else if !i.binOk then ⟨.fail, false⟩
-    else if !i.writeOutputsOk then ⟨.fail, false⟩
-    else if !i.resultWriteOk then ⟨.fail, false⟩
+    else if i.writeOutputs ≠ .ok then ⟨i.writeOutputs.toCb, false⟩
+    else if i.resultWrite ≠ .ok then ⟨i.resultWrite.toCb, false⟩
     else ⟨.ok, true⟩
 
 /-! ### how often a dependency's command runs in one build (execute.go LoadDependencyOutputs)
@@ -287,7 +302,7 @@ inductive Cmd where
   deriving DecidableEq, Repr
 
 inductive Phase where
-  | loading | selecting | lockWait | executing | starting | running | exited (code : Nat)
+  | loading | selecting | lockWait | executing | relock | starting | running | exited (code : Nat)
   deriving DecidableEq, Repr
 
 structure State where
@@ -310,9 +325,14 @@ inductive Ev where
   | lockAcquired
   | lockGaveUp
   | executed (r : ExecEnd)
+  | relockDone                 -- `grog run`: (minimal mode: second workspace lock taken, dependency outputs loaded) → start the binary
+  | relockGaveUp               -- `grog run`, minimal mode: the second lock wait was cancelled
   | binStarted
   | binRefused
-  | binExit (code : Nat)
+  /-- the binary of `grog run` ended with status `code`; `killed`: it was ended by the context's kill (`exec.CommandContext`), so
+      `cmd.Run` returns an error whatever the status. Not killed: `cmd.Run` returns the binary's own status even if the context was
+      cancelled in between (run.go: `if err := run.cmd.Run(); err != nil`) -/
+  | binExit (code : Nat) (killed : Bool)
   deriving DecidableEq, Repr
 
 def step (cmd : Cmd) (s : State) : Ev → Option State
@@ -335,13 +355,15 @@ def step (cmd : Cmd) (s : State) : Ev → Option State
       | .finished false =>
         -- since 1e66bd4 Walk returns the context error also through the wait group when the context is cancelled
         if s.ctx then some { s with phase := .exited 1 }
-        else some { s with phase := if cmd = .run then .starting else .exited 0 }
+        else some { s with phase := if cmd = .run then .relock else .exited 0 }
     else none
+  | .relockDone => if s.phase = .relock then some { s with phase := .starting } else none
+  | .relockGaveUp => if s.phase = .relock ∧ s.ctx = true then some { s with phase := .exited 1 } else none
   | .binStarted => if s.phase = .starting ∧ s.ctx = false then some { s with phase := .running } else none
   | .binRefused => if s.phase = .starting ∧ s.ctx = true then some { s with phase := .exited 1 } else none
-  | .binExit code =>
-    if s.phase = .running then
-      some { s with phase := .exited (if s.ctx then 1 else if code = 0 then 0 else 1) }   -- killed by the context: cmd.Run fails
+  | .binExit code killed =>
+    if s.phase = .running ∧ (killed = true → s.ctx = true) then
+      some { s with phase := .exited (if killed then 1 else if code = 0 then 0 else 1) }
     else none
 
 end Grog.Life
